@@ -364,3 +364,60 @@ def loaders(config, cwd=None):
         return out
     finally:
         os.chdir(old)
+
+
+def build_python_source(spec):
+    import pandas as pd, json as _json
+    out = {}
+    for name, sp in spec.items():
+        cols, rows = sp['cols'], sp['rows']
+        if sp['type'] == 'frame':
+            out[name] = pd.DataFrame([list(r) for r in rows], columns=cols) if rows else pd.DataFrame({c: pd.Series([], dtype='object') for c in cols})
+        elif sp['type'] == 'pylist':
+            out[name] = [dict(zip(cols, r)) for r in rows]
+        else:
+            recs = []
+            for r in rows:
+                d = {}
+                for c, v in zip(cols, r):
+                    if v is None and sp.get('null_style') == 'absent':
+                        continue
+                    d[c] = v
+                recs.append(d)
+            obj = {'rows': recs}
+            out[name] = obj if sp['type'] == 'pydict' else _json.dumps(obj, ensure_ascii=False)
+    return out
+
+
+def fingerprint(objs):
+    import pandas as pd, json as _json
+    fp = {}
+    for k, v in objs.items():
+        if isinstance(v, pd.DataFrame):
+            fp[k] = ['frame', list(map(str, v.columns)), [[None if (not isinstance(x, str) and pd.isna(x)) else (x if isinstance(x, (str, int, float, bool)) else str(x)) for x in row] for row in v.values.tolist()],
+                     [str(t) for t in v.dtypes]]
+        else:
+            fp[k] = ['obj', _json.dumps(v, sort_keys=True, ensure_ascii=False, default=str) if not isinstance(v, str) else v]
+    return fp
+
+
+def mat_set_py(config, cwd=None, py=None, entry='materialize_set'):
+    """materialize_set with in-memory sources built from `py`; also returns a fingerprint of the caller's objects before and
+    after the call"""
+    import morph_kgc
+    old = os.getcwd()
+    try:
+        if cwd:
+            os.chdir(cwd)
+        objs = build_python_source(py or {})
+        before = fingerprint(objs)
+        try:
+            res = morph_kgc.materialize_set(config, objs) if objs else morph_kgc.materialize_set(config)
+            out = {'lines': sorted(res, key=lambda x: str(x)), 'types': sorted({type(x).__name__ for x in res})}
+        except Exception as e:
+            out = _bucket(e)
+        out['before'] = before
+        out['after'] = fingerprint(objs)
+        return out
+    finally:
+        os.chdir(old)
